@@ -1,6 +1,6 @@
 (** C13 — specification vocabulary (finding guards) and proofs. *)
 From HV Require Import Base.Prelude Base.GoUrl.
-From HV Require Import C09.Model C13.Model.
+From HV Require Import C13.Http C13.Model.
 Open Scope string_scope.
 
 (* ------------------------------------------------------------------ guards of the findings *)
@@ -145,7 +145,7 @@ Definition wf_lreqb (L : lreq) : bool :=
   match GoUrl.unescape (l_rawpath L) with Some _ => true | None => false end.
 
 (* ================================================================== proofs *)
-From HV Require Import Base.GoUrlFacts C09.Proofs.
+From HV Require Import Base.GoUrlFacts.
 
 Lemma eqb_refl_s s : String.eqb s s = true.
 Proof. apply String.eqb_refl. Qed.
@@ -1089,8 +1089,8 @@ Section Main.
     | Some (rl, caps) =>
       (negb (fx_F4 fx) && g_F4_decision (r_slashes rl) L) ||
       let ans := answer (acc_http decode L) (http_mech L (r_slashes rl) caps) in
-      existsb (guard_query decode fx (r_slashes rl) caps L) (trace ans (r_prog rl)) ||
-      g_F3_adds (fx_F3 fx) (snd (run_prog ans (r_prog rl))) || g_F5_adds (snd (run_prog ans (r_prog rl)))
+      existsb (guard_query decode fx (r_slashes rl) caps L) (trace ans (rule_prog rl)) ||
+      g_F3_adds (fx_F3 fx) (snd (run_prog ans (rule_prog rl))) || g_F5_adds (snd (run_prog ans (rule_prog rl)))
     end.
 
   (** C13, the decision and what the pipeline emits: the executor ends alike at the HTTP entry points and at Envoy *)
@@ -1110,7 +1110,7 @@ Section Main.
       + rewrite andb_false_r.
         destruct (run_agree (answer (acc_http decode L) (http_mech L (r_slashes rl) caps))
                             (answer (acc_envoy decode fx (mk_envoy L)) (envoy_mech (fx_F1 fx) (fx_F4 fx) L (r_slashes rl) caps))
-                            (r_prog rl)) as [R _].
+                            (rule_prog rl)) as [R _].
         * intros q Hq. apply answer_agree; [exact W|]. exact (existsb_false_forall _ _ Gq q Hq).
         * rewrite R. reflexivity.
     - unfold mech_view. rewrite F. rewrite SL in F. rewrite F. reflexivity.
@@ -1130,7 +1130,7 @@ Section Main.
       apply orb_false_iff in G as [G4 G]. cbv zeta in G.
       apply orb_false_iff in G as [G G5]. apply orb_false_iff in G as [Gq G3].
       destruct (g_F4_decision (r_slashes rl) L) eqn:D4; [split; reflexivity|].
-      destruct (run_prog (answer (acc_http decode L) (http_mech L (r_slashes rl) caps)) (r_prog rl)) as [r adds] eqn:R.
+      destruct (run_prog (answer (acc_http decode L) (http_mech L (r_slashes rl) caps)) (rule_prog rl)) as [r adds] eqn:R.
       cbn [snd] in G3, G5. destruct (same_upstream (fx_F3 fx) adds G3 G5) as [U1 U2].
       unfold serve_with. cbn [o_err o_rule o_adds]. rewrite <- U1, <- U2. split; reflexivity.
     - unfold mech_view. rewrite F. split; reflexivity.
@@ -1198,8 +1198,8 @@ Lemma repo_guards_fire decode find L :
   | None => false
   | Some (rl, caps) =>
     let ans := answer (acc_http decode L) (http_mech L (r_slashes rl) caps) in
-    existsb (fun q => g_F5_query L q || g_F8_query q || g_F9_query L q) (trace ans (r_prog rl)) ||
-    g_F3_adds true (snd (run_prog ans (r_prog rl))) || g_F5_adds (snd (run_prog ans (r_prog rl)))
+    existsb (fun q => g_F5_query L q || g_F8_query q || g_F9_query L q) (trace ans (rule_prog rl)) ||
+    g_F3_adds true (snd (run_prog ans (rule_prog rl))) || g_F5_adds (snd (run_prog ans (rule_prog rl)))
   end.
 Proof.
   unfold guards_fire. destruct (find (lookup_of (build_http L))) as [[rl caps]|]; [|reflexivity].
@@ -1223,7 +1223,7 @@ Definition w_req (method path : string) (hdrs : list (string * string)) (body : 
      l_hdrs := hdrs; l_body := body; l_peer := "10.0.0.1"; l_pack := PackRaw |}.
 
 Definition w_rule (id : string) (s : slashes) (authz : option cond) (steps : list step) : rule :=
-  {| r_id := id; r_slashes := s; r_prog := pipeline_prog authz steps |}.
+  {| r_id := id; r_slashes := s; r_prog := pipeline_prog authz steps; r_on_error := None |}.
 
 Definition hdr_step (name : string) (t : tmpl) : step := {| st_if := None; st_cookie := false; st_items := [(name, t)] |}.
 Definition ck_step (name : string) (t : tmpl) : step := {| st_if := None; st_cookie := true; st_items := [(name, t)] |}.
@@ -1347,7 +1347,8 @@ Proof. repeat split; vm_compute; reflexivity. Qed.
 (** C13-F7 (fix: 19923cd): a pipeline that hands the decoded body on *)
 Definition w7_rule : rule :=
   {| r_id := "c8"; r_slashes := SOff;
-     r_prog := Ask QBody (fun v => match v with VJson s => Emit (AddHeader "X-Body" s) Allow | _ => Fail EInternal end) |}.
+     r_prog := Ask QBody (fun v => match v with VJson s => Emit (AddHeader "X-Body" s) Allow | _ => Fail EInternal end);
+     r_on_error := None |}.
 Definition w7_req := w_req "POST" "/c8/lit" [("Content-Type", "application/x-www-form-urlencoded")] "".
 Definition w7_find := w_find "/c8/lit" w7_rule [].
 Definition tree_F7 := set_F7 false all_fixed.
@@ -1361,7 +1362,8 @@ Proof. repeat split; try (vm_compute; reflexivity); vm_compute; intro E; inversi
 (** C13-F8 (open): Headers() as a whole *)
 Definition w8_rule : rule :=
   {| r_id := "c7"; r_slashes := SOff;
-     r_prog := Ask QHeaders (fun v => match v with VMap m => Emit (AddHeader "X-Host" (assoc "Host" m)) Allow | _ => Fail EInternal end) |}.
+     r_prog := Ask QHeaders (fun v => match v with VMap m => Emit (AddHeader "X-Host" (assoc "Host" m)) Allow | _ => Fail EInternal end);
+     r_on_error := None |}.
 Definition w8_find := w_find "/c7/lit" w8_rule [].
 Lemma F8_refuted :
   g_F8_query QHeaders = true /\ guards_fire w_decode w8_find repo_now w6_req = true /\
@@ -1423,4 +1425,183 @@ Lemma F9_refuted :
   s_handover (serve_envoy w_decode w7_find repo_now w9_req) = Some {| ho_headers := [("X-Body", json_empty_string)]; ho_cookies := [] |} /\
   guards_fire w_decode w7_find all_fixed w9_req = false /\
   serve_decision w_decode w7_find all_fixed w9_req = serve_envoy w_decode w7_find all_fixed w9_req.
+Proof. repeat split; vm_compute; reflexivity. Qed.
+
+(* ------------------------------------------------------------------ Headers(): the two maps agree apart from the key Host *)
+
+Lemma fold_upsert_lookup (F : string -> string) k ks m0 :
+  assoc_opt k (fold_left (fun m k' => upsert k' (fun _ => F k') m) ks m0) =
+  if existsb (String.eqb k) ks then Some (F k) else assoc_opt k m0.
+Proof.
+  revert m0. induction ks as [|k' ks IH]; intro m0; [reflexivity|].
+  cbn [fold_left existsb]. rewrite IH.
+  destruct (existsb (String.eqb k) ks); [rewrite orb_true_r; reflexivity|]. rewrite orb_false_r.
+  destruct (String.eqb k k') eqn:E.
+  - apply String.eqb_eq in E. subst k'. apply assoc_opt_upsert_same.
+  - apply assoc_opt_upsert_other. rewrite String.eqb_sym. exact E.
+Qed.
+
+Lemma keys_of_spec k (h : hdrs) seen :
+  existsb (String.eqb k) (keys_of h seen) = negb (existsb (String.eqb k) seen) && negb (is_nil (values k h)).
+Proof.
+  revert seen. induction h as [|[k0 v] h IH]; intro seen; [cbn; rewrite andb_false_r; reflexivity|].
+  cbn [keys_of]. unfold values in *. cbn [filter fst].
+  destruct (existsb (String.eqb k0) seen) eqn:S0.
+  - rewrite IH. destruct (String.eqb k0 k) eqn:E; [|reflexivity].
+    apply String.eqb_eq in E. subst k0. rewrite S0. reflexivity.
+  - cbn [existsb]. rewrite IH. cbn [existsb]. rewrite (String.eqb_sym k k0).
+    destruct (String.eqb k0 k) eqn:E.
+    + apply String.eqb_eq in E. subst k0. rewrite S0. reflexivity.
+    + cbn [orb negb andb]. reflexivity.
+Qed.
+
+Lemma values_noncanonical k l :
+  canon k <> k -> values k (map (fun nv : string * string => (canon (fst nv), snd nv)) l) = [].
+Proof.
+  intro Hk. unfold values. induction l as [|[n v] l IH]; [reflexivity|]. cbn [map filter fst snd].
+  destruct (String.eqb (canon n) k) eqn:E; [|exact IH].
+  apply String.eqb_eq in E. exfalso. apply Hk. rewrite <- E. apply canon_idem.
+Qed.
+
+(** C13, Headers(): every key other than Host has the same value in requestcontext's Headers() map
+    and in grpcv3's — the difference behind C13-F8 is the key Host and nothing else *)
+Theorem headers_agree_except_host L k :
+  wf_lreqb L = true -> String.eqb k "Host" = false ->
+  assoc_opt k (headers_http (http_hdrs L) (l_host L)) = assoc_opt k (canonicalize_headers (envoy_wire_hdrs L)).
+Proof.
+  intros W Hk. destruct (wf_parts L W) as (Hh & Hc & _).
+  unfold headers_http. rewrite (fold_upsert_lookup (fun k' => join "," (values k' (http_hdrs L)))).
+  rewrite keys_of_spec. cbn [existsb negb andb assoc_opt]. rewrite (String.eqb_sym "Host" k), Hk.
+  rewrite http_hdrs_wf by exact Hh. unfold http_hdrs_wire in *.
+  destruct (String.eqb (canon k) k) eqn:Ck.
+  - apply String.eqb_eq in Ck. rewrite (envoy_lookup_canonical L k Ck Hh).
+    rewrite (values_wire_lower k _ Ck Hh).
+    destruct (vals_lower (lower k) (l_hdrs L)) as [|v vs] eqn:E; [reflexivity|]. cbn [is_nil negb].
+    f_equal. unfold envoy_sep. destruct (String.eqb (lower k) "cookie") eqn:Ec; [|reflexivity].
+    apply join_single_sep. rewrite <- E.
+    assert (Hck : canon "Cookie" = "Cookie") by reflexivity.
+    rewrite (values_wire_lower "Cookie" _ Hck Hh) in Hc.
+    apply String.eqb_eq in Ec. rewrite Ec. exact Hc.
+  - assert (N : canon k <> k) by (intro E; rewrite E, eqb_refl_s in Ck; discriminate).
+    rewrite (values_noncanonical k _ N). cbn [is_nil negb]. symmetry. apply assoc_opt_noncanonical. exact N.
+Qed.
+
+(** ... and the key Host itself: the request host in requestcontext's map, absent from grpcv3's *)
+Lemma headers_host_key L :
+  wf_lreqb L = true ->
+  assoc_opt "Host" (headers_http (http_hdrs L) (l_host L)) = Some (l_host L) /\
+  assoc_opt "Host" (canonicalize_headers (envoy_wire_hdrs L)) = None.
+Proof.
+  intro W. destruct (wf_parts L W) as (Hh & Hc & _). split.
+  - unfold headers_http. rewrite (fold_upsert_lookup (fun k' => join "," (values k' (http_hdrs L)))).
+    rewrite keys_of_spec. cbn [existsb negb andb assoc_opt].
+    rewrite http_hdrs_wf by exact Hh. unfold http_hdrs_wire.
+    assert (V : values "Host" (map (fun nv : string * string => (canon (fst nv), snd nv)) (l_hdrs L)) = []).
+    { unfold values. induction (l_hdrs L) as [|nv l IH]; [reflexivity|]. cbn [forallb] in Hh.
+      apply andb_true_iff in Hh as [H1 H2]. cbn [map filter fst].
+      unfold wf_hdr in H1. repeat (apply andb_true_iff in H1 as [H1 ?]).
+      match goal with Hx : negb (String.eqb (canon (fst nv)) "Host") = true |- _ => apply negb_true_iff in Hx; rewrite Hx end.
+      apply IH. exact H2. }
+    rewrite V. reflexivity.
+  - assert (Ck : canon "Host" = "Host") by reflexivity.
+    rewrite (envoy_lookup_canonical L "Host" Ck Hh). change (lower "Host") with "host".
+    assert (V : vals_lower "host" (l_hdrs L) = []).
+    { unfold vals_lower. induction (l_hdrs L) as [|nv l IH]; [reflexivity|]. cbn [forallb] in Hh.
+      apply andb_true_iff in Hh as [H1 H2]. cbn [filter].
+      destruct (String.eqb (lower (fst nv)) "host") eqn:E; [|apply IH; exact H2].
+      exfalso. unfold wf_hdr in H1. repeat (apply andb_true_iff in H1 as [H1 ?]).
+      match goal with Hx : negb (String.eqb (canon (fst nv)) "Host") = true |- _ => apply negb_true_iff in Hx; rename Hx into NH end.
+      match goal with Hx : all_bytes token_byte (fst nv) = true |- _ => rename Hx into TK end.
+      assert (Ch : canon "Host" = "Host") by reflexivity.
+      rewrite (canon_eq_iff_lower (fst nv) "Host" TK Ch) in NH. change (lower "Host") with "host" in NH. congruence. }
+    rewrite V. reflexivity.
+Qed.
+
+(** a denial answered by the rule's error pipeline: the redirect target echoes a read of the view and is
+    the same at all three entry points *)
+Definition nv3_rule : rule :=
+  {| r_id := "files"; r_slashes := SOff; r_prog := pipeline_prog (Some {| cd_q := QHeader "x-role"; cd_c := "root" |}) [];
+     r_on_error := Some (redirect_prog "http://login.example.com/?o=" (Some QUrl)) |}.
+Definition nv3_find := w_find "/files/report.pdf" nv3_rule [("name", "report.pdf")].
+Example nonvacuous_redirect :
+  guards_fire w_decode nv3_find repo_now nv2_req = false /\
+  s_err (serve_envoy w_decode nv3_find repo_now nv2_req) =
+    Some (ERedirect "http://login.example.com/?o=https://a.example.com:8443/files/report.pdf?v=2") /\
+  serve_decision w_decode nv3_find repo_now nv2_req = serve_envoy w_decode nv3_find repo_now nv2_req.
+Proof. repeat split; vm_compute; reflexivity. Qed.
+
+(* ------------------------------------------------------------------ the decision service behind a trusted proxy *)
+
+(** C13-F10: extractURL re-encodes the query of X-Forwarded-Uri (ParseQuery + Values.Encode: keys sorted,
+    %20 becomes +, pairs with ";" dropped, "x" becomes "x="; an empty result falls back to the carrier
+    request's query): the guard is "the query is not its own re-encoding" *)
+Definition reencoded_query (q : string) : string := GoUrl.values_encode (fst (GoUrl.parse_query q)).
+
+Definition g_F10 (L : lreq) : bool := negb (String.eqb (reencoded_query (l_query L)) (l_query L)).
+
+Lemma valid_encoded_no_qmark s : GoUrl.valid_encoded s = true -> GoUrl.cut_on "?" s = (s, "").
+Proof.
+  induction s as [|c r IH]; [reflexivity|]. cbn [GoUrl.valid_encoded GoUrl.cut_on]. intro H.
+  apply andb_true_iff in H as [Hc Hr].
+  destruct (Ascii.eqb c "?") eqn:E.
+  - apply Ascii.eqb_eq in E. subst c. vm_compute in Hc. discriminate.
+  - rewrite (IH Hr). reflexivity.
+Qed.
+
+Lemma cut_on_qmark_app p q : GoUrl.valid_encoded p = true -> GoUrl.cut_on "?" (p ++ String "?" q) = (p, q).
+Proof.
+  induction p as [|c r IH]; [reflexivity|]. cbn [GoUrl.valid_encoded append GoUrl.cut_on]. intro H.
+  apply andb_true_iff in H as [Hc Hr].
+  destruct (Ascii.eqb c "?") eqn:E.
+  - apply Ascii.eqb_eq in E. subst c. vm_compute in Hc. discriminate.
+  - rewrite (IH Hr). reflexivity.
+Qed.
+
+(** C13, the decision service as deployed: conveyed through the X-Forwarded-* headers of a trusted
+    proxy, a logical request gives the same method, scheme, host, path and query as when a service
+    receives it directly — unless the query is not its own re-encoding (C13-F10) *)
+Theorem deployed_decision_same_url L :
+  wf_lreqb L = true -> nonempty (l_method L) = true -> g_F10 L = false ->
+  url_parts (view_tp L) = url_parts (view_direct L).
+Proof.
+  intros W Hm G. destruct (wf_parts L W) as (Hh & Hc & Hhost & Hs & Hv & p & Hu).
+  unfold view_direct. unfold http_hdrs. rewrite strip_untrusted, view_untrusted.
+  unfold view_tp, strip, view_of, extract_url, extract_method, url_parts, spec_view_untrusted, tp_headers, tp_conn, http_conn.
+  cbn [get values filter map fst snd XFM XFP XFH XFU FWD XFF String.eqb Ascii.eqb Bool.eqb
+       v_method v_scheme v_host v_rawpath v_query c_method c_tls c_host c_escpath c_rawquery c_peer].
+  rewrite Hm.
+  assert (Sc : nonempty (scheme_of L) = true) by (unfold scheme_of; destruct (l_tls L); reflexivity).
+  rewrite Sc, Hhost.
+  assert (Nu : nonempty (forwarded_uri L) = true).
+  { unfold forwarded_uri. destruct (l_rawpath L); [discriminate | reflexivity]. }
+  rewrite Nu. rewrite (escpath_wire_wf _ _ Hs Hv Hu).
+  unfold g_F10 in G. apply negb_false_iff, String.eqb_eq in G.
+  assert (P : parse_forwarded_uri (forwarded_uri L) = Some (l_rawpath L, reencoded_query (l_query L))).
+  { unfold parse_forwarded_uri, forwarded_uri. destruct (nonempty (l_query L)) eqn:Nq.
+    - cbn [append]. rewrite (cut_on_qmark_app _ _ Hv).
+      pose proof (escpath_wire_wf _ _ Hs Hv Hu) as E. unfold escpath_of_wire in E.
+      destruct (GoUrl.set_path (l_rawpath L)) as [[pa rp]|] eqn:Sp.
+      + rewrite E. reflexivity.
+      + apply set_path_none in Sp. congruence.
+    - assert (Q : l_query L = "") by (unfold nonempty in Nq; apply negb_false_iff, String.eqb_eq in Nq; exact Nq).
+      rewrite Q. assert (A : l_rawpath L ++ "" = l_rawpath L) by (induction (l_rawpath L) as [|c r IH]; [reflexivity | cbn; rewrite IH; reflexivity]).
+      rewrite A, (valid_encoded_no_qmark _ Hv).
+      pose proof (escpath_wire_wf _ _ Hs Hv Hu) as E. unfold escpath_of_wire in E.
+      destruct (GoUrl.set_path (l_rawpath L)) as [[pa rp]|] eqn:Sp.
+      + rewrite E. reflexivity.
+      + apply set_path_none in Sp. congruence. }
+  rewrite P. cbn [fst snd]. rewrite (nonempty_slash _ Hs). rewrite G.
+  unfold scheme_of. destruct (nonempty (l_query L)) eqn:Nq; [reflexivity|].
+  unfold nonempty in Nq. apply negb_false_iff, String.eqb_eq in Nq. rewrite Nq. reflexivity.
+Qed.
+
+(** C13-F10, witnesses: sorted keys, "+" for %20, a pair with ";" dropped *)
+Definition w10_req (q : string) : lreq :=
+  {| l_method := "GET"; l_tls := true; l_host := "a.example.com"; l_rawpath := "/t/abc"; l_query := q;
+     l_hdrs := []; l_body := ""; l_peer := "10.0.0.1"; l_pack := PackRaw |}.
+Lemma F10_refuted :
+  wf_lreqb (w10_req "b=2&a=1") = true /\ g_F10 (w10_req "b=2&a=1") = true /\
+  v_query (view_direct (w10_req "b=2&a=1")) = "b=2&a=1" /\ v_query (view_tp (w10_req "b=2&a=1")) = "a=1&b=2" /\
+  v_query (view_tp (w10_req "q=a%20b")) = "q=a+b" /\ v_query (view_tp (w10_req "a=1;b=2")) = "" /\
+  g_F10 (w10_req "a=1&b=2") = false /\ url_parts (view_tp (w10_req "a=1&b=2")) = url_parts (view_direct (w10_req "a=1&b=2")).
 Proof. repeat split; vm_compute; reflexivity. Qed.
